@@ -19,15 +19,15 @@ theorem zipRefs_rows (a i : Nat) (r : Row) :
     simp [Function.comp_def, Nat.add_comm, Nat.add_left_comm]
 
 /-- `edges(a)`: the outgoing edge references of an existing node are `(a, target, weight)` for the specified
-successors, in ascending order of the target, with the consecutive ids `row[a] ..`; at `a = node_count` the
-iterator is empty, beyond that the call panics. -/
+successors, in ascending order of the target, with the consecutive ids `row[a] ..`; for a node that does not
+exist (`a ≥ node_count`) the call panics (since /repo commit aadb875, the repair of D32). -/
 theorem edgesOf_spec {s : State} {R : List Row} {g : SG} (good : Good s R) (abs : Abs s R g) (a : Nat) :
     (a < g.n → ∃ refs, edgesOf s a = some refs ∧
       refs.map (fun e => (e.2.1, e.2.2.1, e.2.2.2)) = (g.succ a).map (fun x => (a, x.1, x.2)) ∧
       refs.map (·.1) = (List.range (g.succ a).length).map (· + start R a)) ∧
-    (a = g.n → edgesOf s a = some []) ∧ (g.n < a → edgesOf s a = none) := by
+    (g.n ≤ a → edgesOf s a = none) := by
   have hn := Abs.n good abs
-  refine ⟨?_, ?_, ?_⟩
+  refine ⟨?_, ?_⟩
   · intro ha
     rw [hn] at ha
     have hrow := Abs.row_eq_succ good abs a ha
@@ -36,13 +36,8 @@ theorem edgesOf_spec {s : State} {R : List Row} {g : SG} (good : Good s R) (abs 
     · rw [(zipRefs_rows a _ R[a]).1, hrow]
     · rw [(zipRefs_rows a _ R[a]).2, hrow]
   · intro ha
-    rw [hn] at ha; subst ha
-    simp only [edgesOf, good.rep.range_eq]
-    rw [← good.rep.column_length, slice_empty, good.rep.column_length, ← good.rep.edges_length, slice_empty]
-    rfl
-  · intro ha
     rw [hn] at ha
-    simp [edgesOf, good.rep.range_gt a ha]
+    simp [edgesOf, good.rep.range_ge a ha]
 
 theorem zipRefs_length (a i : Nat) (r : Row) : (zipRefs a i (r.map (·.1)) (r.map (·.2))).length = r.length := by
   induction r generalizing i with
